@@ -177,6 +177,176 @@ def close (rel abs a b : α) : Bool :=
 /-- `under(lm)` for ordinary magnitudes: `10^lm` computed as `exp(lm·LOG_10)` -/
 def pow10 (x : α) : α := exp (x * LOG_10)
 
+/-! ## log K(T) of a database reaction (`k_calc`, 1 atm): vector `[logK_T0, ΔH kJ, A1 … A6]` -/
+
+def kCalc (v : List α) (tk : α) : α :=
+  match v with
+  | [k0, dh, a1, a2, a3, a4, a5, a6] =>
+    k0 - dh * (lit (29815 / 100) - tk) / (LOG_10 * (tk * R_KJ_DEG_MOL) * lit (29815 / 100))
+      + a1 + a2 * tk + a3 / tk + a4 * log10 tk + a5 / (tk * tk) + a6 * tk * tk
+  | _ => lit 0
+
+/-! ## Donnan approximation of the diffuse layer (`calc_all_donnan`, `calc_psi_avg`; `correct_D` off) -/
+
+/-- `f_sinh = sqrt(8000 * eps_r * EPSILON_ZERO * (R_KJ_DEG_MOL * 1000) * tk_x * mu_x)` -/
+def fSinh (epsr tk mu : α) : α :=
+  sqrt (lit 8000 * epsr * EPSILON_ZERO * (R_KJ_DEG_MOL * lit 1000) * tk * mu)
+
+/-- `surf_chrg_eq = A_surf * f_sinh * sinh(f_psi) / F_C_MOL`: the Gouy–Chapman charge (eq) at the reduced half
+potential `f_psi` that the Donnan layer has to balance -/
+def surfChrgEq (epsr tk mu aSurf fpsi : α) : α := aSurf * fSinh epsr tk mu * sinh fpsi / F_C_MOL
+
+/-- the function `calc_psi_avg` drives to zero and its derivative term: `fd = surf_chrg_eq + Σ eq_z·exp(-z·p)·ratio_aq`,
+`fd1 = -Σ z·eq_z·exp(-z·p)·ratio_aq`; groups `(z, eq_z)` with `eq_z = Σ z·moles·erm_ddl`; neutral groups and (with
+`-only_counter_ions`) co-ions are left out -/
+def donnanFd (sq ratio : α) (onlyCount : Bool) (groups : List (α × α)) (p : α) : α × α :=
+  groups.foldl (fun acc g =>
+    let z := g.1
+    let co := sq * z
+    if (z ≤ lit 0 ∧ lit 0 ≤ z) ∨ (onlyCount = true ∧ lit 0 < co) then acc
+    else
+      let temp := exp (-z * p) * ratio
+      (acc.1 + g.2 * temp, acc.2 - z * g.2 * temp)) (sq, lit 0)
+
+/-- first guess of `calc_psi_avg` -/
+def donnanStart (sq ratio mu : α) : α :=
+  if sq < lit 0 then -(lit (1 / 2)) * ln (-sq * ratio / mu + lit 1)
+  else lit (1 / 2) * ln (sq * ratio / mu + lit 1)
+
+/-- Newton iteration of `calc_psi_avg` (at most 51 passes; `none` = "Too many iterations") -/
+def donnanIter (sq ratio gtol : α) (onlyCount : Bool) (groups : List (α × α)) : Nat → α → Option α
+  | 0, _ => none
+  | n + 1, p =>
+    let (fd0, fd1) := donnanFd sq ratio onlyCount groups p
+    let fd := fd0 / -fd1
+    let p1 := p + (if lit 1 < fd then lit 1 else if fd < -(lit 1) then -(lit 1) else fd)
+    let p2 := if absv p1 < gtol then lit 0 else p1
+    if lit (1 / 1000000000000) < absv fd ∧ ¬ (p2 ≤ lit 0 ∧ lit 0 ≤ p2) then donnanIter sq ratio gtol onlyCount groups n p2
+    else some p2
+
+/-- `calc_psi_avg` -/
+def psiAvg (sq ratio mu gtol : α) (onlyCount : Bool) (groups : List (α × α)) : Option α :=
+  if (sq ≤ lit 0 ∧ lit 0 ≤ sq) ∨ (ratio ≤ lit 0 ∧ lit 0 ≤ ratio) then some (lit 0)
+  else donnanIter sq ratio gtol onlyCount groups 51 (donnanStart sq ratio mu)
+
+/-- the excess factor `calc_all_donnan` stores for charge number `z`: `ratio_aq·(exp(cd_m·z·p) − 1)`, `cd_m = −1`
+(DDL, CCM) or `+1` (CD-MUSIC); excluded co-ions get `−ratio_aq`; never below `−ratio_aq + G_TOL·1e-3` -/
+def donnanG (sq ratio gtol cdm : α) (onlyCount : Bool) (z p : α) : α :=
+  let g0 := ratio * (exp (cdm * z * p) - lit 1)
+  let g1 := if onlyCount = true ∧ lit 0 < sq * z then -ratio else g0
+  if g1 ≤ -ratio then -ratio + gtol * lit (1 / 1000) else g1
+
+/-- Boltzmann part of the Donnan factor (no clipping) -/
+def donnanBoltz (ratio cdm z p : α) : α := ratio * (exp (cdm * z * p) - lit 1)
+
+/-- moles of a species in the diffuse layer (`molalities`, revised eq. 61):
+`g_moles = moles·erm_ddl·(g + mass_water_DL/mass_water_aq)` -/
+def gMoles (moles erm g ratio : α) : α := moles * erm * (g + ratio)
+
+/-! ## Borkovec–Westall integration of the diffuse layer (`calc_all_g`, `g_function`, `midpnt`, `qromb_midpnt`, `polint`) -/
+
+/-- `g_function(x)` for the charge number `zg`; `aq` = `(moles, z)` of the aqueous species -/
+def gFunction (gtol mwAq zg : α) (aq : List (α × α)) (x : α) : α :=
+  if absv (x - lit 1) ≤ gtol * lit 100 then lit 0 else
+  let lnx := ln x
+  let sum := aq.foldl (fun a mz => if mz.2 ≤ lit 0 ∧ lit 0 ≤ mz.2 then a else a + mz.1 * (exp (lnx * mz.2) - lit 1)) (lit 0)
+  (exp (lnx * zg) - lit 1) / sqrt (x * x * mwAq * sum)
+
+/-- `midpnt(x1, x2, n)` with its static accumulator `midpoint_sv` passed explicitly -/
+def midpnt (f : α → α) (x1 x2 : α) (n : Nat) (sv : α) : α :=
+  if n ≤ 1 then (x2 - x1) * f (lit (1 / 2) * (x1 + x2)) else Id.run do
+    let it : Nat := 3 ^ (n - 2)
+    let tnm : α := ofRat (it : Rat)
+    let del := (x2 - x1) / (lit 3 * tnm)
+    let ddel := del + del
+    let mut xv := x1 + lit (1 / 2) * del
+    let mut sum : α := lit 0
+    for _ in [0:it] do
+      sum := sum + f xv
+      xv := xv + ddel
+      sum := sum + f xv
+      xv := xv + del
+    return (sv + (x2 - x1) * sum / tnm) / lit 3
+
+/-- `polint(xa, ya, 5, 0.0, &y, &dy)` on 5 points (Neville) exactly as coded; returns `(y, dy)` -/
+def polint5 (xa ya : Array α) : α × α := Id.run do
+  let n := 5
+  let xv : α := lit 0
+  let get (a : Array α) (i : Nat) : α := a.getD (i - 1) (lit 0)
+  let mut ns := 1
+  let mut dif := absv (xv - get xa 1)
+  let mut c : Array α := ya
+  let mut d : Array α := ya
+  for i in [1:n + 1] do
+    let dift := absv (xv - get xa i)
+    if dift < dif then
+      ns := i
+      dif := dift
+  let mut yv := get ya ns
+  ns := ns - 1
+  let mut dy : α := lit 0
+  for m in [1:n] do
+    for i in [1:n - m + 1] do
+      let ho := get xa i - xv
+      let hp := get xa (i + m) - xv
+      let w := get c (i + 1) - get d i
+      let den := w / (ho - hp)
+      d := d.set! (i - 1) (hp * den)
+      c := c.set! (i - 1) (ho * den)
+    if 2 * ns < n - m then
+      dy := get c (ns + 1)
+    else
+      dy := get d ns
+      ns := ns - 1
+    yv := yv + dy
+  return (yv, dy)
+
+/-- `qromb_midpnt(charge, x1, x2)`: Romberg on the open midpoint rule (`MAX_QUAD 20`, `K_POLY 5`), scaled by
+`grams·specific_area·alpha/F_C_MOL` and negated when `x2 < 1`; `none` = "Too many iterations" -/
+def qrombMidpnt (f : α → α) (gtol scale x1 x2 : α) : Option α := Id.run do
+  let sgn (v : α) : α := if x2 - lit 1 < lit 0 then -(v * scale) else v * scale
+  let mut sv : Array α := #[midpnt f x1 x2 1 (lit 0)]
+  let mut h : Array α := #[lit 1]
+  for j in [1:20] do
+    let s := midpnt f x1 x2 (j + 1) (sv.getD (j - 1) (lit 0))
+    sv := sv.push s
+    h := h.push (h.getD (j - 1) (lit 1) / lit 9)
+    if absv (s - sv.getD (j - 1) (lit 0)) ≤ gtol * absv s then
+      return some (sgn s)
+    if j ≥ 4 then
+      let xa := (List.range 5).toArray.map fun k => h.getD (j - 4 + k) (lit 0)
+      let ya := (List.range 5).toArray.map fun k => sv.getD (j - 4 + k) (lit 0)
+      let (ss, dss) := polint5 xa ya
+      if absv dss ≤ gtol * absv ss ∨ absv dss < gtol then
+        return some (sgn ss)
+  return none
+
+/-- the decade break points of `calc_all_g`: integrate `1 → 0.1 → 0.01 … → xd` -/
+def gIntervals (xd : α) : List (α × α) :=
+  let cuts : List α := [lit (1 / 10), lit (1 / 100), lit (1 / 1000), lit (1 / 10000), lit (1 / 100000),
+    lit (1 / 1000000), lit (1 / 10000000), lit (1 / 100000000)]
+  let rec go (lo : α) (cs : List α) : List (α × α) :=
+    match cs with
+    | [] => [(lo, xd)]
+    | c :: rest => if c < xd then [(lo, xd)] else (lo, c) :: go c rest
+  go (lit 1) cuts
+
+/-- `new_g` of `calc_all_g` for charge number `z` (surface with grams > 0):
+`xd = exp(-2·la·LOG_10)`, `alpha = sqrt(eps_r·ε₀·(R·1000)·1000·T·0.5)` -/
+def borkovecG (epsr tk la area grams gtol mwAq : α) (onlyCount : Bool) (aq : List (α × α)) (z : α) : Option α :=
+  let xd := exp (-(lit 2) * la * LOG_10)
+  let alpha := sqrt (epsr * EPSILON_ZERO * (R_KJ_DEG_MOL * lit 1000) * lit 1000 * tk * lit (1 / 2))
+  let scale := grams * area * alpha / F_C_MOL
+  let counter := (lit 0 < la ∧ z < lit 0) ∨ (la < lit 0 ∧ lit 0 < z)
+  if onlyCount = true ∧ ¬ counter then some (lit 0) else
+  let f := gFunction gtol mwAq z aq
+  let r := (gIntervals xd).foldl (fun acc iv => match acc, qrombMidpnt f gtol scale iv.1 iv.2 with
+    | some a, some v => some (a + v)
+    | _, _ => none) (some (lit 0))
+  match r with
+  | some g => if onlyCount = true ∧ g < lit 0 then some (lit 0) else some g
+  | none => none
+
 /-! ## the convergence gate (`residuals` decides CONVERGED, `check_residuals` reports ERROR) -/
 
 /-- a surface-related row of the Newton system, with the data its residual is computed from -/
